@@ -57,6 +57,16 @@ type RelayPlan struct {
 	// what is left (C16).
 	Epilogue bool `json:"epilogue,omitempty"`
 	Dispose  bool `json:"dispose,omitempty"` // end with ILalServer.Dispose instead of letting sessions leave
+	// RtspIdle: instead of the relay ops, run the "RTSP publisher falls silent" scenario (C16): an RTSP publisher over
+	// TCP or UDP keeps sending across the first liveness sweep, then stops sending with its connection open.
+	RtspIdle *RtspIdlePlan `json:"rtsp_idle,omitempty"`
+}
+
+type RtspIdlePlan struct {
+	Tcp       bool `json:"tcp"`
+	ActiveMs  int  `json:"active_ms"` // how long it keeps sending (one frame per second of simulated time)
+	WithAudio bool `json:"with_audio"`
+	Cons      int  `json:"cons"` // RTMP players attached meanwhile
 }
 
 // ---- generation ----------------------------------------------------------------------------------------------------------
